@@ -223,6 +223,37 @@ def rand_value(rng, t):
     return gen.rand_value(rng, "%s/%d/%d" % (k, mn, mx))
 
 
+def rejected_limits_cases(rng):
+    """Prototype with BOTH intensity and colour; incomplete limits of one kind make finalize fail, the caller
+    repairs them and finalizes again: the OTHER kind's limits (default from the type, or a complete override)
+    must still be stored exactly.  [(label, calls)] for C10 and C14."""
+    cases = []
+    one, two, half = "d3ff0000000000000", "d4000000000000000", "d3fe0000000000000"
+    for in_ty, rgb_ty in (("I/0/2047", ("I/0/255", "I/0/1023", "I/10/20")), ("F/00000000/3f800000", ("I/0/7", "I/0/7", "I/0/1")),
+                          ("S/0/100/3f847ae147ae147b/0000000000000000", ("D/0000000000000000/3ff0000000000000",) * 3)):
+        proto = [("x", "D"), ("y", "D"), ("z", "D"), ("in", in_ty), ("r", rgb_ty[0]), ("g", rgb_ty[1]), ("b", rgb_ty[2])]
+        def pt():
+            return [one, two, half] + [rand_value(rng, t) for _, t in proto[3:]]
+        for broken, bad, good in (("clim", ["i0/i1/-/i2/i0/i3", "-/i1/i0/i2/i0/i3"], ["i0/i1/i0/i2/i0/i3", "-"]),
+                                  ("ilim", ["i0/-", "-/i9"], ["i0/i9", "-"])):
+            other = "ilim" if broken == "clim" else "clim"
+            other_override = "i3/i77" if other == "ilim" else "i1/i2/i3/i4/i5/i6"
+            for override_other in (False, True):
+                for na in (0, 2):
+                    for repair in good:
+                        calls = [("NEW", "g"), ("PC", "pc", proto)]
+                        if override_other:
+                            calls.append(("PSET", other, other_override))
+                        calls.append(("PSET", broken, rng.choice(bad)))
+                        calls += [("PT", pt()) for _ in range(rng.range(0, 4))]
+                        calls += [("PFIN",)] * rng.range(1, 3)
+                        calls.append(("PSET", broken, repair))
+                        calls += [("PT", pt()) for _ in range(na)]
+                        calls += [("PFIN",), ("PDROP",), ("FIN",)]
+                        cases.append(("limits:rejected-finalize-keeps-other-limits", calls))
+    return cases
+
+
 def value_ok(t, v):
     k = type_kind(t)
     if k == "F":
